@@ -498,6 +498,35 @@ func (c *c15) applyQuerierFault(q *querier, k string) {
 	}
 }
 
+// mismatchedOrigin returns a request origin that is not the joining user's
+// server: another server, or a near miss of the right name (explicit default
+// or other port, other case, trailing dot, sub- / super-string).
+func (c *c15) mismatchedOrigin() spec.ServerName {
+	t := c.t
+	j := string(c.rm.J().Name)
+	switch t.Weighted([]int{5, 2, 1, 1, 1, 1, 1}) {
+	case 1:
+		c.r.Probe("origin_near_miss")
+		return spec.ServerName(j + ":8448")
+	case 2:
+		c.r.Probe("origin_near_miss")
+		return spec.ServerName(j + ":" + sim.Pick(t, []string{"443", "8449", "80"}))
+	case 3:
+		c.r.Probe("origin_near_miss")
+		return spec.ServerName(strings.ToUpper(j))
+	case 4:
+		c.r.Probe("origin_near_miss")
+		return spec.ServerName(j + ".")
+	case 5:
+		c.r.Probe("origin_near_miss")
+		return spec.ServerName("x" + j)
+	case 6:
+		c.r.Probe("origin_near_miss")
+		return spec.ServerName(j[1:])
+	}
+	return c.third().Name
+}
+
 func (c *c15) opMakeJoin() {
 	r, t, rm := c.r, c.t, c.rm
 	q := c.newQuerier()
@@ -525,7 +554,7 @@ func (c *c15) opMakeJoin() {
 			}
 			in.RemoteVersions = vs
 		case k == "origin_mismatch":
-			in.RequestOrigin = c.third().Name
+			in.RequestOrigin = c.mismatchedOrigin()
 		case k == "user_of_other_server":
 			other := rm.users[0]
 			if len(rm.servers) > 2 && t.Bool() {
@@ -566,7 +595,7 @@ func (c *c15) opMakeLeave() {
 		k := []string{"origin_mismatch", "server_not_in_room", "template_wrong_type", "template_nil_event", "template_nil_state", "template_error", "user_of_other_server"}[t.Weighted([]int{4, 3, 1, 1, 1, 1, 2})]
 		switch {
 		case k == "origin_mismatch":
-			in.RequestOrigin = c.third().Name
+			in.RequestOrigin = c.mismatchedOrigin()
 		case k == "server_not_in_room":
 			in.LocalServerInRoom = false
 		case k == "user_of_other_server":
@@ -750,7 +779,7 @@ func (c *c15) opSendJoin() {
 			}
 			sh.sender, sh.stateKey, sh.signer, sh.key = o, world.Str(o.id), o.srv, o.srv.Current()
 		case "origin_mismatch":
-			origin = c.third().Name
+			origin = c.mismatchedOrigin()
 		case "event_other_room":
 			if c.c14.other == nil {
 				continue
@@ -891,8 +920,15 @@ func (c *c15) callSendJoin(in gmsl.HandleSendJoinInput, ev gmsl.PDU, submitted [
 // local server over the unmodified event.
 func (c *c15) checkCounterSigned(op string, got gmsl.PDU, submitted []byte, local spec.ServerName) {
 	r := c.r
-	if p := c.rm.parse(got.JSON()); p != nil && strings.Join(p.AuthEventIDs(), ",") != strings.Join(got.AuthEventIDs(), ",") {
-		r.Probe("returned_pdu_accessors_disagree_with_its_json")
+	// the returned PDU is the submitted event: what it reports about itself is
+	// what its own JSON says
+	if p := c.rm.parse(got.JSON()); p != nil {
+		same := strings.Join(p.AuthEventIDs(), ",") == strings.Join(got.AuthEventIDs(), ",") && strings.Join(p.PrevEventIDs(), ",") == strings.Join(got.PrevEventIDs(), ",") &&
+			p.EventID() == got.EventID() && p.Type() == got.Type() && p.SenderID() == got.SenderID() && p.Version() == got.Version()
+		if same && !(p.Type() == spec.MRoomCreate) {
+			same = p.RoomID().String() == got.RoomID().String()
+		}
+		r.Check(same, "C15", op+"_event_modified", "accessors:"+c.sig(), "%s: the returned PDU misreports the event it carries (auth events %v, its JSON says %v; id %s vs %s)", op, got.AuthEventIDs(), p.AuthEventIDs(), got.EventID(), p.EventID())
 	}
 	r.Check(c.validlySignedBy(got, local), "C15", op+"_not_countersigned", c.sig(), "%s: the returned event carries no valid signature of the local server %s", op, local)
 	r.Check(sameProjection(got.JSON(), submitted), "C15", op+"_event_modified", c.sig(), "%s: the returned event differs from the submitted one outside signatures/unsigned", op)
@@ -1311,6 +1347,22 @@ func (jc *joinClient) SendJoin(ctx context.Context, origin, s spec.ServerName, e
 		if o, err := rm.buildWith(rm.users[0], []string{rm.tip.id}, rm.tip.ev.Depth()+1, state, spec.MRoomMember, world.Str(rm.users[0].id), map[string]any{"membership": "join"}); err == nil {
 			out.Event = o.JSON()
 		}
+	case "remote_event_other_sender":
+		// looks like the join we sent (membership, room, state key) but another user sent it
+		if o, err := rm.buildWith(rm.users[0], []string{rm.tip.id}, rm.tip.ev.Depth()+1, state, spec.MRoomMember, world.Str(c.ju.id), map[string]any{"membership": "join"}); err == nil {
+			out.Event = o.JSON()
+		}
+	case "remote_event_thin_auth":
+		// the joiner's own join, but citing only a tape-chosen part of the state as auth events
+		var part []gmsl.PDU
+		for _, e := range state {
+			if e.Type() == spec.MRoomCreate || t.Chance(400) {
+				part = append(part, e)
+			}
+		}
+		if o, err := rm.buildWith(c.ju, []string{rm.tip.id}, rm.tip.ev.Depth()+1, part, spec.MRoomMember, world.Str(c.ju.id), map[string]any{"membership": "join"}); err == nil {
+			out.Event = o.JSON()
+		}
 	case "remote_event_garbage":
 		out.Event = []byte(sim.Pick(t, malformedSamples[1:]))
 	case "remote_event_absent":
@@ -1329,7 +1381,7 @@ func (c *c15) opPerformJoin() {
 	for i := 0; i < nf; i++ {
 		k := []string{"template_wrong_type", "template_wrong_room", "template_redacts", "template_unknown_version", "template_other_sender",
 			"create_missing", "create_only_in_state", "create_unknown_version", "remote_event_not_a_join", "remote_event_other_user", "remote_event_garbage", "remote_event_absent",
-			"send_join_state_faults", "resident_skips_auth"}[t.Weighted([]int{2, 2, 2, 2, 1, 4, 2, 3, 2, 2, 1, 1, 6, 2})]
+			"send_join_state_faults", "resident_skips_auth", "remote_event_other_sender", "remote_event_thin_auth"}[t.Weighted([]int{2, 2, 2, 2, 1, 4, 2, 3, 2, 2, 1, 1, 6, 2, 3, 3})]
 		switch {
 		case strings.HasPrefix(k, "template_"):
 			jc.tplFault = k
